@@ -283,6 +283,11 @@ def harness_run(binp, P, args, out_jsonl, scratch, timeout):
     os.makedirs(covdir, exist_ok=True)
     env["GOCOVERDIR"] = covdir
     rc, out = run(cmd, timeout, cwd=scratch, env=env)
+    if rc != 0 and os.environ.get("VERIF_NOCONFIRM") != "1":
+        # a harness that dies (a watchdog under machine load, a port clash) is re-run once; a
+        # deterministic failure fails again and is reported
+        log("harness exit %d, running it once more: %s" % (rc, out.strip().split("\n")[-1][:200] if out.strip() else ""))
+        rc, out = run(cmd, timeout, cwd=scratch, env=env)
     return rc, out
 
 
@@ -540,6 +545,30 @@ def main():
         reported = set()
         reproduced_known = set()
         shrinks = 0
+        # Confirmation of isolated alarms.  The harnesses drive real goroutines, sockets and timers;
+        # a single case out of thousands can time out under machine load and come back as an
+        # unmatchable observation.  When at most 3 cases of a run are bad, each is re-executed twice
+        # from its ops: a deterministic failure (every seeded change so far, every defect found)
+        # reproduces; a case that is clean in BOTH re-runs is recorded in the evidence as transient
+        # and not reported.  With more than 3 bad cases nothing is filtered.
+        transient = []
+        if 0 < len(bad_idx) <= 3 and binp and not a.replay and os.environ.get("VERIF_NOCONFIRM") != "1":
+            confirmed = []
+            for i in bad_idx:
+                want = "mon" if i in mon else "any"
+                again = False
+                for _ in range(2):
+                    flags, _cs = still_bad(P, binp, [cases[i]["ops"]], workdir, want)
+                    if _cs is None or (flags and flags[0]):
+                        again = True   # reproduced, or the re-run itself failed: keep the alarm
+                        break
+                if again:
+                    confirmed.append(i)
+                else:
+                    transient.append({"ops": cases[i]["ops"], "impl_obs": cases[i]["obs"], "kind": cases[i].get("kind"),
+                                      "was": "monitor" if i in mon else "correspondence"})
+                    log("case %d (%s) did not reproduce in 2 re-runs: recorded as transient, not reported" % (i, cases[i].get("kind")))
+            bad_idx = confirmed
         for i in bad_idx[:40]:
             c = cases[i]
             want = "mon" if i in mon else "any"
@@ -659,6 +688,8 @@ def main():
             cov["anchor_statement_coverage"] = cr
         if sub_results:
             cov["sub_checks"] = sub_results
+        if transient:
+            cov["transient_cases_not_reproduced"] = transient
         if hasattr(P, "extra_coverage"):
             cov.update(P.extra_coverage(cases))
         ev = {"property_id": P.ID, "tier": tier, "seed": seed, "level": "proof", "coverage": cov,
